@@ -16,7 +16,7 @@ type DecSpec struct {
 	Slow  int    `json:"slow,omitempty"` // microseconds slept inside the DecorFunc (0 = none, -n = n yields)
 	Vary  int    `json:"vary,omitempty"` // how much the text width varies from frame to frame
 	Depth int    `json:"depth,omitempty"`
-	Sync  bool   `json:"sync,omitempty"` // any kind: the decorator opts into width synchronisation
+	Sync  bool   `json:"sync,omitempty"`  // any kind: the decorator opts into width synchronisation
 	Glyph int    `json:"glyph,omitempty"` // kind sync: 0 = ASCII text, 1 = two-column runes, 2 = letters with combining marks
 }
 
